@@ -443,6 +443,9 @@ Section Buffer.
   Lemma Post_Good st r : Post st r -> Good r (M st).
   Proof. destruct r; cbn; auto. intros (H1 & H2 & H3 & H4 & H5 & H6). repeat split; auto; apply H4; auto. Qed.
 
+  Lemma Good_M t st m : Good (LTok t st) m -> M st < m.
+  Proof. cbn. intros (_ & _ & _ & _ & H). exact H. Qed.
+
   Lemma Good_Inv t st m : Good (LTok t st) m -> ttype t <> TEOF \/ pos st <= n -> Inv st.
   Proof.
     cbn. intros (H1 & H2 & H3 & H4 & H5) Hc. unfold Inv.
@@ -452,41 +455,46 @@ Section Buffer.
   Lemma skip_eols_ok f : n + 3 <= f -> forall g r, Good r g -> Good (skip_eols isld B f (S g) r) g.
   Proof.
     intros Hf. induction g as [|g IH]; intros r HG; cbn [skip_eols].
-    - destruct r as [t st| | |]; auto. cbn in HG. lia.
+    - destruct r as [t st| | |]; auto. apply Good_M in HG. lia.
     - destruct r as [t st| | |]; auto.
       destruct (ttype t =? TEOL)%Z eqn:E; auto.
       apply Z.eqb_eq in E.
       assert (HI : Inv st). { apply (Good_Inv t st (S g)); auto. left. rewrite E. discriminate. }
       apply (Good_mono _ g); [|lia]. apply IH.
-      apply (Good_mono _ (M st)); [apply Post_Good, lnext_ok; auto|]. cbn in HG. lia.
+      apply (Good_mono _ (M st)); [apply Post_Good, lnext_ok; auto|]. apply Good_M in HG. lia.
   Qed.
 
   Lemma lex_loop_ok f : n + 3 <= f -> forall g r acc, Good r g ->
     match lex_loop isld B f (S g) r acc with LexOk _ | LexErr _ _ => True | _ => False end.
   Proof.
     intros Hf. induction g as [|g IH]; intros r acc HG; cbn [lex_loop].
-    - destruct r as [t st| | |]; auto. cbn in HG. lia.
+    - destruct r as [t st| | |]; auto. apply Good_M in HG. lia.
     - destruct r as [t st| | |]; auto.
       destruct ((ttype t =? TEOF)%Z && (pred (length B) <=? pos st)) eqn:E; auto.
       assert (HI : Inv st).
       { apply (Good_Inv t st (S g)); auto. apply andb_false_iff in E. destruct E as [E|E].
         - left. apply Z.eqb_neq in E. auto.
         - right. apply Nat.leb_gt in E. rewrite B_len in E. lia. }
-      apply IH. apply (Good_mono _ (M st)); [apply Post_Good, lnext_ok; auto|]. cbn in HG. lia.
+      apply IH. apply (Good_mono _ (M st)); [apply Post_Good, lnext_ok; auto|]. apply Good_M in HG. lia.
   Qed.
 
   Lemma Inv_init : Inv init_l.
   Proof. unfold Inv, init_l. cbn. repeat split; try lia. exists []. reflexivity. Qed.
 
-  Lemma new_lexer_ok f : n + 3 <= f -> Good (new_lexer isld B f) (M init_l).
+  Lemma new_lexer_ok f : n + 3 <= f -> Good (new_lexer isld B f) (3 * n + 9).
   Proof.
     intro Hf. unfold new_lexer, lex_gas. rewrite B_len.
     replace (3 * (n + 2) + 4) with (S (3 * n + 9)) by lia.
-    assert (HM : M init_l <= 3 * n + 9) by (unfold M, init_l; cbn; lia).
-    assert (H0 : Good (lnext isld B f init_l) (M init_l)) by (apply Post_Good, lnext_ok; auto using Inv_init).
-    pose proof (skip_eols_ok f Hf (3 * n + 9) _ (Good_mono _ _ _ H0 HM)) as H.
-    revert H. generalize (skip_eols isld B f (S (3 * n + 9)) (lnext isld B f init_l)). intros r H.
-    destruct r as [t st| | |]; cbn in *; auto.
-    destruct H as (H1 & H2 & H3 & H4 & H5). repeat split; auto.
-  Abort.
+    assert (HM : M init_l <= 3 * n + 9) by (unfold M, init_l; cbn [pos unind indents length]; lia).
+    apply skip_eols_ok; auto.
+    apply (Good_mono _ (M init_l)); auto. apply Post_Good, lnext_ok; auto using Inv_init.
+  Qed.
+
+  Lemma lex_all_B_ok f : n + 3 <= f ->
+    match lex_loop isld B f (lex_gas B) (new_lexer isld B f) [] with LexOk _ | LexErr _ _ => True | _ => False end.
+  Proof.
+    intro Hf. unfold lex_gas at 1. rewrite B_len.
+    replace (3 * (n + 2) + 4) with (S (3 * n + 9)) by lia.
+    apply lex_loop_ok; auto. apply new_lexer_ok; auto.
+  Qed.
 End Buffer.
